@@ -103,6 +103,22 @@ func init() {
 			}
 		}
 		sb.WriteString("\ndef factoryStartOrder : List String := " + LeanStrList(startCalls) + "\n")
+		// the database-config handler: GetShardAssign passes the repository error on as it is; only
+		// ErrNotExist leads to creation; create / grow place shards on what storage.GetLiveNodes returns,
+		// and GetLiveNodes lists the registration keys (it does not read the in-memory LiveNodes)
+		for _, fn := range []string{"GetShardAssign", "shardAssignment", "createShardAssignment", "modifyShardAssignment"} {
+			fd := FindFunc(sm, "stateManager", fn)
+			if fd == nil {
+				return "", fmt.Errorf("stateManager.%s not found", fn)
+			}
+			sb.WriteString("\ndef " + strings.ToLower(fn[:1]) + fn[1:] + "HandlerShape : List String := " + LeanStrList(c18StmtShape(fd.Body.List)) + "\n")
+		}
+		gl := FindFunc(sc, "storageCluster", "GetLiveNodes")
+		if gl == nil {
+			return "", fmt.Errorf("storageCluster.GetLiveNodes not found")
+		}
+		sb.WriteString("\ndef getLiveNodesShape : List String := " + LeanStrList(c18StmtShape(gl.Body.List)) + "\n")
+		sb.WriteString("\ndef getLiveNodesCalls : List String := " + LeanStrList(CallSeq(gl)) + "\n")
 		capv := int64(-1)
 		ast.Inspect(FindFunc(sm, "", "NewStateManager"), func(n ast.Node) bool {
 			if ce, ok := n.(*ast.CallExpr); ok {
@@ -222,6 +238,26 @@ func c18StmtShape(stmts []ast.Stmt) []string {
 				out = append(out, "}")
 			case *ast.BlockStmt:
 				walk(x.List)
+			case *ast.SwitchStmt:
+				tag := ""
+				if x.Tag != nil {
+					tag = " " + types.ExprString(x.Tag)
+				}
+				out = append(out, "switch"+tag, "{")
+				for _, cc := range x.Body.List {
+					cl := cc.(*ast.CaseClause)
+					if cl.List == nil {
+						out = append(out, "default")
+					} else {
+						var es []string
+						for _, e := range cl.List {
+							es = append(es, types.ExprString(e))
+						}
+						out = append(out, "case "+strings.Join(es, ","))
+					}
+					walk(cl.Body)
+				}
+				out = append(out, "}")
 			default:
 				out = append(out, simple(s))
 			}
